@@ -56,21 +56,32 @@ Theorem C18_lacking_applied_refused :
 Proof. exact lacking_applied_refused_lemma. Qed.
 Print Assumptions C18_lacking_applied_refused.
 
-(* opting out of a registered migration that an earlier run targeted is refused *)
+(* a target that lacks ANY bit (of the uint64) an earlier run targeted — LastTargetVersion is
+   written before the first migration runs, so this covers migrations that were opted into and
+   never finished — is refused and writes nothing; no restriction to registered indices *)
 Theorem C18_optout_refused :
   forall (DB Tok : Type) (es : list (@migration DB Tok)) fuel enabled c (s : @pstate DB Tok) i,
-  i < length es -> vhas (last s) i = true -> vhas (target_version es enabled) i = false ->
+  i < max_migrations -> vhas (last s) i = true -> vhas (target_version es enabled) i = false ->
   let r := run_boot es fuel enabled c s in
-  snd r = RRefusedOptOut /\ ms_p (fst r) = s /\ ms_trace (fst r) = [].
+  (snd r = RRefusedOptOut \/ snd r = RRefusedDowngrade) /\ ms_p (fst r) = s /\ ms_trace (fst r) = [].
 Proof. exact optout_refused_lemma. Qed.
 Print Assumptions C18_optout_refused.
+
+(* in particular a binary that does not have the migration at all *)
+Theorem C18_lacking_opted_in_refused :
+  forall (DB Tok : Type) (es : list (@migration DB Tok)) fuel enabled c (s : @pstate DB Tok) i,
+  length es <= i -> i < max_migrations -> vhas (last s) i = true ->
+  let r := run_boot es fuel enabled c s in
+  snd r = RRefusedDowngrade /\ ms_p (fst r) = s /\ ms_trace (fst r) = [].
+Proof. exact lacking_opted_in_refused_lemma. Qed.
+Print Assumptions C18_lacking_opted_in_refused.
 
 Theorem C18_accepted_sound :
   forall (DB Tok : Type) (es : list (@migration DB Tok)) fuel enabled c (s : @pstate DB Tok),
   let r := run_boot es fuel enabled c s in
   snd r <> RRefusedOptOut -> snd r <> RRefusedDowngrade ->
   (forall i, vhas (cur s) i = true -> vhas (target_version es enabled) i = true) /\
-  (forall i, i < length es -> vhas (last s) i = true -> vhas (target_version es enabled) i = true).
+  (forall i, i < max_migrations -> vhas (last s) i = true -> vhas (target_version es enabled) i = true).
 Proof. exact accepted_sound_lemma. Qed.
 Print Assumptions C18_accepted_sound.
 
@@ -126,6 +137,22 @@ Theorem C18_data_preserved_resume_prefix : forall (db : btdb) (k : nat) (dbk : b
     /\ preserved (map acc_old db) db' = true.
 Proof. exact bt_resume_prefix_lemma. Qed.
 Print Assumptions C18_data_preserved_resume_prefix.
+
+(* ... and from ANY crash state between batch commits: an arbitrary collection of aligned ranges
+   already committed (any order, repetitions, not necessarily a prefix — what the four ingestor
+   batches leave behind when the process dies or a batch write fails between their commits). The
+   completed database IS the database of the uninterrupted run, and serves every block's original
+   content. (resume_same_db for the blocktransactions model; holds since fix d128c93.) *)
+Theorem C18_resume_same_db_any_committed :
+  forall (db : btdb) (js : list nat) (dbc : btdb) (tok : option bttok),
+  db <> [] -> wf_old db = true -> no_empty_range db = true ->
+  commit_ranges db (map (fun j => j * batch_size) js) = Some dbc ->
+  (tok = None \/ tok = Some Rescan) ->
+  exists db', bt_complete (length db + 3) dbc tok = Some db'
+    /\ bt_complete (length db + 3) db None = Some db'
+    /\ preserved (map acc_old db) db' = true.
+Proof. exact bt_resume_any_committed_lemma. Qed.
+Print Assumptions C18_resume_same_db_any_committed.
 
 (* ---------------------------------------------------------------------------------------- *)
 (* Non-vacuity and the witnesses that the hypotheses are needed (all by computation).        *)
@@ -217,12 +244,14 @@ Example yield_runs_next_and_reports_success :
   invocations (ms_log st) = [0; 1].
 Proof. vm_compute. repeat split; reflexivity. Qed.
 
-(* refusal does not cover a migration that an earlier run opted into but did not finish when the
-   present binary does not have it at all: bit 1 of LastTargetVersion, one-migration registry *)
-Example C18_opted_in_beyond_registry_accepted :
+(* a migration that an earlier run opted into but did not finish, present binary without it
+   (bit 1 of LastTargetVersion, one-migration registry): refused since fix c2e766d — before it
+   validateNoOptOut stopped at the out-of-range bit and validateNoVersionDowngrade only looked at
+   CurrentVersion, so the run was accepted *)
+Example opted_in_beyond_registry_refused :
   let s := {| cur := 1; last := 3; inter := [(1, 1%N)]; pdb := 5%N |} in
   let '(st, r) := run_boot [script 1 false] 20 0 None s in
-  r = ROk /\ last (ms_p st) = 1%N.
+  r = RRefusedDowngrade /\ ms_p st = s.
 Proof. vm_compute. split; reflexivity. Qed.
 
 (* blocktransactions: the hypotheses of C18_data_preserved hold for a concrete database with an
@@ -233,17 +262,18 @@ Example data_preserved_nonvacuous : db11 <> [] /\ wf_old db11 = true /\ no_empty
 Proof. split. discriminate. vm_compute. auto. Qed.
 
 (* crash after the batch holding range [10,10] was committed and before the one holding [0,9]:
-   the restart re-ingests block 10, finds no old entries, sees the blob ("already migrated") and
-   overwrites it with an empty one *)
-Example C18_resume_same_db_crash_refuted :
+   the restart re-ingests block 10, finds no old entries, sees the blob ("already migrated") and —
+   since fix d128c93 — leaves it alone; the completed database is the uninterrupted one. (Before
+   the fix ingestBlock wrote the empty freshly built blob over it and block 10 read back empty.) *)
+Example crash_between_batch_commits_resumes :
   exists dbc, commit_ranges db11 [10] = Some dbc /\
-  exists db', bt_complete 14 dbc None = Some db' /\ preserved (map acc_old db11) db' = false /\
-  option_map acc_new (nth_error db' 10) = Some (Some ([], [])) /\
-  bt_complete 14 db11 None <> Some db'.
+  exists db', bt_complete 14 dbc None = Some db' /\ preserved (map acc_old db11) db' = true /\
+  option_map acc_new (nth_error db' 10) = Some (Some ([2%N], [2%N])) /\
+  bt_complete 14 db11 None = Some db'.
 Proof.
   eexists. split. vm_compute. reflexivity.
   eexists. split. vm_compute. reflexivity.
-  vm_compute. repeat split; try reflexivity. discriminate.
+  vm_compute. repeat split; reflexivity.
 Qed.
 
 (* a leading aligned range without transactions is never visited: its blocks have no blob *)
